@@ -288,7 +288,8 @@ fn gen(a: &Args) {
             0 => g.r.below(k + 2) as usize,                      // around / below k
             1 => ku,
             2 => ku + 1,
-            _ => g.r.below(3 * k + 8) as usize,
+            3 => g.r.below(3 * k + 8) as usize,
+            _ => g.r.range(k, 3 * k + 7) as usize,
         };
         let lower = *g.r.pick(&[0u64, 0, 10, 50, 100]);
         let mut bad: Vec<usize> = vec![];
@@ -341,7 +342,8 @@ fn gen(a: &Args) {
         let len = match g.r.below(6) {
             0 => g.r.below(kk + 2) as usize,
             1 => kk as usize,
-            _ => g.r.below(3 * kk + 8) as usize,
+            2 => g.r.below(3 * kk + 8) as usize,
+            _ => g.r.range(kk, 3 * kk + 7) as usize,
         };
         let s: Vec<u8> = (0..len).map(|_| g.residue()).collect();
         let seed = g.seed();
@@ -356,7 +358,8 @@ fn gen(a: &Args) {
         let len = match g.r.below(6) {
             0 => g.r.below(t + 3) as usize,
             1 => g.r.range(t.saturating_sub(2), t + 3) as usize, // the len >= 3*(k/3) boundary
-            _ => g.r.below(3 * k + 8) as usize,
+            2 => g.r.below(3 * k + 8) as usize,
+            _ => g.r.range(t, 3 * k + 7) as usize,
         };
         let lower = *g.r.pick(&[0u64, 0, 10, 100]);
         let mut s = g.dna(len, lower);
